@@ -1,16 +1,17 @@
 #!/usr/bin/env python3
-"""keep a held-out round of seeded changes: /tmp/seed<N>/<id>/<a|b> -> seeded/<id>/<e|f> (round 3), <g|h> (round 4)
+"""keep a held-out round of seeded changes: /tmp/seed<N>/<id>/<a|b> -> seeded/<id>/<e|f> (round 3), <g|h> (round 4), <i|j> (round 5)
 
 tools/round3keep.py <first_pass.log> <final.log> [round]     (logs written by the round scripts)"""
 import json, os, re, shutil, sys
 
 first_log, final_log = sys.argv[1], sys.argv[2]
 ROUND = int(sys.argv[3]) if len(sys.argv) > 3 else 3
-SUFFIX = {3: {"a": "e", "b": "f"}, 4: {"a": "g", "b": "h"}}[ROUND]
-HEAD = {3: "c879335", 4: "860eafa"}[ROUND]
+SUFFIX = {3: {"a": "e", "b": "f"}, 4: {"a": "g", "b": "h"}, 5: {"a": "i", "b": "j"}}[ROUND]
+HEAD = {3: "c879335", 4: "860eafa", 5: "06c0635"}[ROUND]
 ASKED = {
     3: "asked for changes that a reviewer would wave through (refactorings, speed-ups, tidied helpers) and that need a second call, another entry point, a less common configuration or another numeric type to show",
     4: "told which fifteen ideas were taken and asked for the least travelled combination of inputs, object kinds, numeric types, registry options and call sequences in the anchored functions and their helpers",
+    5: "told which two dozen ideas were taken, pointed at boundary values, last branches, second-order effects, interactions of two facets and reflected/in-place forms, and asked to report behaviour of the unmodified code that already contradicts the property",
 }[ROUND]
 ROOT = os.path.dirname(os.path.dirname(os.path.abspath(__file__)))
 
